@@ -17,7 +17,7 @@ use read_fonts::collections::IntSet;
 use read_fonts::tables::cmap::CmapSubtable;
 use read_fonts::tables::glyf::{Anchor, CompositeGlyphFlags, Glyph};
 use read_fonts::types::{GlyphId, NameId, Tag};
-use read_fonts::{FontRef, TableProvider};
+use read_fonts::{FontRead, FontRef, TableProvider};
 use serde_json::json;
 use skrifa::instance::{Location, Size};
 use skrifa::outline::{DrawSettings, OutlinePen};
@@ -72,6 +72,9 @@ struct AFont {
     f4_same: bool,
     /// chars mapped identically by ALL format-4 subtables (empty if there is none)
     f4_common: BTreeMap<u32, u32>,
+    /// HVAR / VVAR of the font (harness side; the Coq term carries the index maps only)
+    hvar: Option<MetricsVar>,
+    vvar: Option<MetricsVar>,
 }
 
 fn h40(b: &[u8]) -> u64 {
@@ -226,7 +229,7 @@ fn abstract_font(font: &FontRef) -> AFont {
         let m: BTreeMap<u32, u32> = l.iter().cloned().collect();
         f4_common.retain(|c, g| m.get(c) == Some(g));
     }
-    AFont { n, glyphs, has_hmtx, long, lsbs, cmap, cmap_ok, uvs, selectors, colr, f4_same, f4_common }
+    AFont { n, glyphs, has_hmtx, long, lsbs, cmap, cmap_ok, uvs, selectors, colr, f4_same, f4_common, hvar: metrics_var(font, b"HVAR", 3), vvar: metrics_var(font, b"VVAR", 4) }
 }
 
 fn coq_glyph(g: &AG) -> String {
@@ -356,7 +359,35 @@ fn observe(bytes: &[u8]) -> Option<Obs> {
     Some(Obs { num_glyphs, glyphs, hmtx, cmap: cmap_pairs(&font), cmap4_multi: cmap4_offset_segments(&font) >= 2, cmap4 })
 }
 
-fn coq_obs(r: &Result<Vec<u8>, String>, obs: &Option<Obs>, f4_same: bool) -> String {
+fn coq_mvar(mv: &MetricsVar, n: usize) -> String {
+    let maps = clist(mv.maps.iter(), |m| match m {
+        None => "None".to_string(),
+        Some(m) => {
+            let obc = m.width() * 8 - m.inner_bits();
+            let tbl: Vec<(u32, u32)> = (0..n as u32).map(|g| m.get(g).unwrap_or((0, 0))).collect();
+            format!("(Some ({}, {}))", obc, coq_pairs(&tbl))
+        }
+    });
+    format!("mkMvar {} {}", mv.ivd_count, maps)
+}
+
+/// observed index maps of the subset's HVAR / VVAR, as (name of the original's mvar definition, raw maps)
+fn coq_obs_mvars(font_id: &str, af: &AFont, sub: &[u8]) -> String {
+    let Ok(sf) = FontRef::new(sub) else { return "[]".into() };
+    let mut items = vec![];
+    for (tag, tagb, mo) in [("HVAR", b"HVAR", &af.hvar), ("VVAR", b"VVAR", &af.vvar)] {
+        let Some(mo) = mo else { continue };
+        let Some(ms) = metrics_var(&sf, tagb, mo.maps.len()) else { continue };
+        let maps = clist(ms.maps.iter(), |m| match m {
+            None => "None".to_string(),
+            Some(m) => format!("(Some ({}, {}, {}))", m.entry_format, m.map_count, czlist(m.entries.iter().map(|v| *v as i128))),
+        });
+        items.push(format!("({}_{}, {})", font_id, tag, maps));
+    }
+    clist(items.iter(), |x| x.clone())
+}
+
+fn coq_obs(r: &Result<Vec<u8>, String>, obs: &Option<Obs>, f4_same: bool, mvars: &str) -> String {
     match (r, obs) {
         (Err(e), _) if e.starts_with("panic") => "OPanic".into(),
         (Err(_), _) => "OErr".into(),
@@ -365,8 +396,108 @@ fn coq_obs(r: &Result<Vec<u8>, String>, obs: &Option<Obs>, f4_same: bool) -> Str
             let g = copt(o.glyphs.as_ref().map(|v| clist(v.iter(), |g| coq_glyph(g))));
             let h = copt(o.hmtx.as_ref().map(|(k, v)| format!("({}, {})", k, coq_pairs(v))));
             let c4 = copt(f4_same.then(|| coq_pairs(&o.cmap4)));
-            format!("OOut {} {} {} {} {} {}", o.num_glyphs, g, h, coq_pairs(&o.cmap), cbool(o.cmap4_multi), c4)
+            format!("OOut {} {} {} {} {} {} {}", o.num_glyphs, g, h, coq_pairs(&o.cmap), cbool(o.cmap4_multi), c4, mvars)
         }
+    }
+}
+
+
+// ------------------------------------------------------------------------------------------------
+// HVAR / VVAR: delta-set index maps read from the raw bytes, and location-free delta-row content
+// ------------------------------------------------------------------------------------------------
+/// one DeltaSetIndexMap as stored: entry format byte, mapCount, raw entry values (big-endian, `width` bytes)
+#[derive(Clone, Debug, PartialEq)]
+struct RawIndexMap {
+    entry_format: u8,
+    map_count: u32,
+    entries: Vec<u32>,
+}
+impl RawIndexMap {
+    fn inner_bits(&self) -> u32 {
+        (self.entry_format as u32 & 0x0F) + 1
+    }
+    fn width(&self) -> u32 {
+        ((self.entry_format as u32 >> 4) & 0x3) + 1
+    }
+    /// (outer, inner) for an index, with the specification's clamp to the last entry
+    fn get(&self, idx: u32) -> Option<(u32, u32)> {
+        if self.entries.is_empty() {
+            return None;
+        }
+        let v = self.entries[(idx as usize).min(self.entries.len() - 1)];
+        let ib = self.inner_bits();
+        Some((v >> ib, v & ((1u32 << ib) - 1)))
+    }
+}
+
+/// HVAR (3 maps: advance, lsb, rsb) or VVAR (4 maps: advance height, tsb, bsb, vorg)
+#[derive(Clone, Debug)]
+struct MetricsVar {
+    /// bytes of the ItemVariationStore (from its offset to the end of the table)
+    store: Vec<u8>,
+    ivd_count: usize,
+    maps: Vec<Option<RawIndexMap>>,
+}
+
+fn read_index_map(t: &[u8], off: usize) -> Option<RawIndexMap> {
+    let format = *t.get(off)?;
+    let entry_format = *t.get(off + 1)?;
+    let (map_count, data) = if format == 0 {
+        (u16::from_be_bytes([*t.get(off + 2)?, *t.get(off + 3)?]) as u32, off + 4)
+    } else {
+        (u32::from_be_bytes([*t.get(off + 2)?, *t.get(off + 3)?, *t.get(off + 4)?, *t.get(off + 5)?]), off + 6)
+    };
+    let width = ((entry_format as usize >> 4) & 3) + 1;
+    let mut entries = Vec::with_capacity(map_count as usize);
+    for i in 0..map_count as usize {
+        let b = t.get(data + i * width..data + (i + 1) * width)?;
+        entries.push(b.iter().fold(0u32, |a, x| (a << 8) | *x as u32));
+    }
+    Some(RawIndexMap { entry_format, map_count, entries })
+}
+
+fn metrics_var(font: &FontRef, tag: &[u8; 4], nmaps: usize) -> Option<MetricsVar> {
+    let t = font.table_data(Tag::new(tag))?;
+    let t = t.as_bytes();
+    let rd = |o: usize| -> Option<usize> { Some(u32::from_be_bytes([*t.get(o)?, *t.get(o + 1)?, *t.get(o + 2)?, *t.get(o + 3)?]) as usize) };
+    let so = rd(4)?;
+    let store = t.get(so..)?.to_vec();
+    let ivd_count = read_fonts::tables::variations::ItemVariationStore::read(read_fonts::FontData::new(&store)).ok()?.item_variation_data_count() as usize;
+    let mut maps = vec![];
+    for k in 0..nmaps {
+        let o = rd(8 + 4 * k)?;
+        maps.push(if o == 0 { None } else { Some(read_index_map(t, o)?) });
+    }
+    Some(MetricsVar { store, ivd_count, maps })
+}
+
+/// the delta row (outer, inner) as { region (per axis start, peak, end) -> delta }, zero deltas dropped:
+/// independent of region order, of the word/short layout and of any variation location
+fn delta_row(mv: &MetricsVar, outer: u32, inner: u32) -> Option<BTreeMap<Vec<(i16, i16, i16)>, i64>> {
+    let store = read_fonts::tables::variations::ItemVariationStore::read(read_fonts::FontData::new(&mv.store)).ok()?;
+    let regions = store.variation_region_list().ok()?.variation_regions();
+    let ivd = store.item_variation_data().get(outer as usize)?.ok()?;
+    if inner >= ivd.item_count() as u32 {
+        return None;
+    }
+    let mut row = BTreeMap::new();
+    for (ri, d) in ivd.region_indexes().iter().zip(ivd.delta_set(inner as u16)) {
+        if d == 0 {
+            continue;
+        }
+        let reg = regions.get(ri.get() as usize).ok()?;
+        let key: Vec<(i16, i16, i16)> = reg.region_axes().iter().map(|a| (a.start_coord().to_bits(), a.peak_coord().to_bits(), a.end_coord().to_bits())).collect();
+        *row.entry(key).or_insert(0i64) += d as i64;
+    }
+    row.retain(|_, v| *v != 0);
+    Some(row)
+}
+
+/// (outer, inner) of glyph g through map k (implicit identity when the map is absent: only meaningful for map 0)
+fn var_index(mv: &MetricsVar, k: usize, g: u32) -> Option<(u32, u32)> {
+    match mv.maps.get(k)? {
+        Some(m) => m.get(g),
+        None => Some((g >> 16, g & 0xFFFF)),
     }
 }
 
@@ -777,6 +908,34 @@ fn oracle(cx: &OracleCtx, req: &Req, res: &Result<Vec<u8>, String>, st: &mut Sta
     if let Some((kind, f)) = first_fail {
         report(st, classify(af, &spec, &orig, Some(&subf), &kind, ""), "kept glyph not preserved", f);
         return;
+    }
+    // HVAR / VVAR: the delta row every kept glyph is routed to (through the new DeltaSetIndexMaps and the new
+    // ItemVariationStore) has the same content as in the original - exact and independent of any location
+    for (tag, mo) in [(b"HVAR", &af.hvar), (b"VVAR", &af.vvar)] {
+        let Some(mo) = mo else { continue };
+        let nmaps = mo.maps.len();
+        let Some(ms) = metrics_var(&subf, tag, nmaps) else { continue }; // dropped table: reported by the metrics check
+        st.count("oracle.metrics_var_tables_checked");
+        for g in &spec_v {
+            let ng = newid(*g);
+            for k in 0..nmaps {
+                if k > 0 && mo.maps[k].is_none() {
+                    continue;
+                }
+                let Some((oo, oi)) = var_index(mo, k, *g) else { continue };
+                let Some(row_o) = delta_row(mo, oo, oi) else { continue };
+                st.evaluations += 1;
+                let idx_s = if k > 0 && ms.maps[k].is_none() { None } else { var_index(&ms, k, ng) };
+                let row_s = idx_s.and_then(|(so, si)| delta_row(&ms, so, si));
+                if row_s.as_ref() != Some(&row_o) {
+                    report(st, None, "kept glyph is routed to a different variation delta row (metrics differ away from the default location)",
+                        json!({"table": String::from_utf8_lossy(tag), "map": k, "glyph": g, "new": ng, "orig_index": [oo, oi], "subset_index": idx_s.map(|p| vec![p.0, p.1]),
+                               "orig_row": format!("{:?}", row_o).chars().take(300).collect::<String>(), "subset_row": format!("{:?}", row_s).chars().take(300).collect::<String>(),
+                               "subset_entry_format": ms.maps[k].as_ref().map(|m| m.entry_format)}));
+                    return;
+                }
+            }
+        }
     }
     // characters
     let rg: BTreeSet<u32> = req.gids.iter().cloned().collect();
@@ -1301,6 +1460,73 @@ fn block_requests(af: &AFont, rng: &mut Rng, nrand: usize, neng: usize) -> Vec<R
     out
 }
 
+/// Small requests that mix glyphs routed to DIFFERENT ItemVariationData subtables of HVAR / VVAR, with a random
+/// number (1..4) of distinct delta rows per subtable (the shapes the index-map repacking has to get right), plus tiny
+/// random character / glyph-id sets; under default flags, RETAIN_GIDS and random flags.
+fn metrics_var_requests(af: &AFont, rng: &mut Rng, count: usize) -> Vec<Req> {
+    let mut out = vec![];
+    let Some(mv) = af.hvar.as_ref().or(af.vvar.as_ref()) else { return out };
+    // outer -> inner -> chars / gids
+    let mut by_outer: BTreeMap<u32, BTreeMap<u32, Vec<(u32, u32)>>> = BTreeMap::new();
+    for (c, g) in &af.cmap {
+        if (*g as usize) < af.n {
+            if let Some((o, i)) = var_index(mv, 0, *g) {
+                by_outer.entry(o).or_default().entry(i).or_default().push((*c, *g));
+            }
+        }
+    }
+    let outers: Vec<u32> = by_outer.keys().cloned().collect();
+    let chars: Vec<u32> = af.cmap.iter().map(|p| p.0).collect();
+    if outers.is_empty() {
+        return out;
+    }
+    for k in 0..count {
+        let flags = match k % 3 {
+            0 => 0,
+            1 => F_RETAIN_GIDS,
+            _ => {
+                let mut f = 0;
+                for b in [F_NO_HINTING, F_RETAIN_GIDS, F_SET_OVERLAPS, F_NOTDEF_OUTLINE] {
+                    if rng.chance(1, 2) {
+                        f |= b;
+                    }
+                }
+                f
+            }
+        };
+        let (mut gids, mut unis) = (vec![], vec![]);
+        if k % 4 == 3 {
+            let kk = (rng.range(1, 6) as usize).min(chars.len());
+            unis = pick_subset(rng, &chars, kk);
+        } else {
+            let m = (rng.range(1, 3) as usize).max(if outers.len() >= 2 { 2 } else { 1 }).min(outers.len());
+            let mut os = outers.clone();
+            rng.shuffle(&mut os);
+            for o in os.into_iter().take(m) {
+                let inners: Vec<u32> = by_outer[&o].keys().cloned().collect();
+                // row counts on both sides of the bit-width boundaries (new inner index 0 | 1 | 2..3 | 4..7 | 8..)
+                let r = (*rng.pick(&[1usize, 1, 2, 2, 3, 4, 5, 9])).min(inners.len());
+                let mut is = inners.clone();
+                rng.shuffle(&mut is);
+                for i in is.into_iter().take(r) {
+                    let (c, g) = *rng.pick(&by_outer[&o][&i]);
+                    if rng.chance(1, 5) {
+                        gids.push(g);
+                    } else {
+                        unis.push(c);
+                    }
+                }
+            }
+        }
+        gids.sort();
+        gids.dedup();
+        unis.sort();
+        unis.dedup();
+        out.push(Req { gids, unis, flags, label: "metrics-var-mix" });
+    }
+    out
+}
+
 // ------------------------------------------------------------------------------------------------
 // shard writer (same shape as vh::CaseWriter, plus per-shard font definitions so that the abstract font
 // is written once per shard and not once per case)
@@ -1324,7 +1550,16 @@ impl Shards {
     }
     fn add_font(&mut self, af: &AFont) -> usize {
         let id = format!("font_{}", self.fonts.len());
-        self.fonts.push((id, coq_font(af), af.n + af.cmap.len() / 4 + 1));
+        // the font term, followed by the HVAR / VVAR index maps as separate definitions <id>_HVAR / <id>_VVAR
+        let mut def = coq_font(af);
+        let mut w = af.n + af.cmap.len() / 4 + 1;
+        for (tag, mv) in [("HVAR", &af.hvar), ("VVAR", &af.vvar)] {
+            if let Some(mv) = mv {
+                write!(def, ".\nDefinition {}_{} : mvar := {}", id, tag, coq_mvar(mv, af.n)).unwrap();
+                w += af.n * mv.maps.iter().filter(|m| m.is_some()).count() / 2;
+            }
+        }
+        self.fonts.push((id, def, w));
         self.fonts.len() - 1
     }
     fn push(&mut self, font: usize, req: &Req, obs: String, weight: usize) {
@@ -1462,6 +1697,7 @@ fn main() {
         if !name.starts_with("syn") {
             let k = if thorough { 24 } else { 6 };
             reqs.extend(block_requests(&af, rng, k, k));
+            reqs.extend(metrics_var_requests(&af, rng, if thorough { 160 } else { 40 }));
         }
         let model_font_ok = af.n <= 1500 && af.cmap.len() <= 4000 && af.cmap.windows(2).all(|w| w[0].0 < w[1].0);
         if !model_font_ok {
@@ -1520,9 +1756,16 @@ fn main() {
             if (i < model_cases || i >= n_plain) && model_font_ok && !small {
                 st.count("model.skipped_glyf_over_64k");
             }
-            if (i < model_cases || i >= n_plain) && model_font_ok && small {
+            // whole-font errors raised by subsetters outside the model (COLR, cmap byte encoder, ...) cannot be
+            // predicted by it: left to the oracle (known classes C17:colr-subset-fails / C17:cmap-subset-fails)
+            let unmodelled_err = matches!(&res, Err(e) if e.starts_with("err: Subsetting table") && !["'hmtx'", "'maxp'", "'glyf'", "'loca'", "'head'", "'hhea'"].iter().any(|t| e.contains(t)));
+            if unmodelled_err {
+                st.count("model.skipped_unmodelled_table_error");
+            }
+            if (i < model_cases || i >= n_plain) && model_font_ok && small && !unmodelled_err {
                 let w = obs.as_ref().map(|o| o.num_glyphs + o.cmap.len() / 4).unwrap_or(1) + req.gids.len() / 4 + req.unis.len() / 4 + 4;
-                sh.push(fi, req, coq_obs(&res, &obs, af.f4_same), w);
+                let mv = res.as_ref().map(|b| coq_obs_mvars(&format!("font_{}", fi), &af, b)).unwrap_or("[]".into());
+                sh.push(fi, req, coq_obs(&res, &obs, af.f4_same, &mv), w);
             }
             st.sample(json!({"font": name, "request": req.label, "gids": req.gids.iter().take(8).collect::<Vec<_>>(), "unicodes": req.unis.iter().take(8).collect::<Vec<_>>(), "flags": req.flags,
                 "subset_num_glyphs": obs.as_ref().map(|o| o.num_glyphs), "impl": format!("{:?}", res.as_ref().map(|b| b.len()))}));
@@ -1571,7 +1814,7 @@ fn main() {
             st.evaluations += 1;
             st.count("request.f7-witness");
             let obs = res.as_ref().ok().and_then(|b| observe(b));
-            sh.push(fi, &req, coq_obs(&res, &obs, af.f4_same), af.n);
+            sh.push(fi, &req, coq_obs(&res, &obs, af.f4_same, "[]"), af.n);
             oracle(&cx, &req, &res, &mut st, &mut rng, false, 400);
         }
     }
